@@ -15,7 +15,7 @@ use std::{
 use serde_json::json;
 use trustfall_core::{
     interpreter::{Adapter, AsVertex, CandidateValue, ContextIterator, ContextOutcomeIterator, EdgeInfo, ResolveEdgeInfo, ResolveInfo, VertexInfo, VertexIterator},
-    ir::{EdgeParameters, FieldValue as FV},
+    ir::{Argument, EdgeParameters, FieldValue as FV, IndexedQuery, Operation, Vid},
 };
 
 use crate::{
@@ -43,6 +43,10 @@ pub enum Mode {
     All,
     /// act on one hint kind at the n-th resolution point (start = 0, then resolve_neighbors calls in order)
     Only(usize, Hint),
+    /// act on the dynamic hint of exactly one property at one resolution point
+    OnlyDyn(usize, &'static str),
+    /// act on every hint except the dynamic hints of the listed (point, property) pairs
+    AllExceptDyn(&'static [(usize, &'static str)]),
 }
 
 pub struct Pruner {
@@ -53,18 +57,29 @@ pub struct Pruner {
     pub points: Cell<usize>,
     /// hints that actually had something to say: (point, kind)
     pub active: RefCell<BTreeSet<(usize, Hint)>>,
+    /// dynamic hints offered: (point, property, destination vid)
+    pub active_dyn: RefCell<BTreeSet<(usize, String, Vid)>>,
     pub dropped: Cell<u64>,
 }
 
 impl Pruner {
     pub fn new(world: Arc<World>, ds: Arc<Dataset>, mode: Mode) -> Self {
-        Pruner { inner: GraphAdapter::new(world.clone(), ds.clone()), world, ds, mode, points: Cell::new(0), active: Default::default(), dropped: Cell::new(0) }
+        Pruner { inner: GraphAdapter::new(world.clone(), ds.clone()), world, ds, mode, points: Cell::new(0), active: Default::default(), active_dyn: Default::default(), dropped: Cell::new(0) }
     }
     fn acts(&self, point: usize, h: Hint) -> bool {
         match self.mode {
             Mode::Ignore => false,
             Mode::All => true,
             Mode::Only(p, k) => p == point && k == h,
+            Mode::OnlyDyn(..) => false,
+            Mode::AllExceptDyn(_) => true,
+        }
+    }
+    fn acts_dyn(&self, point: usize, prop: &str) -> bool {
+        match self.mode {
+            Mode::OnlyDyn(p, name) => p == point && name == prop,
+            Mode::AllExceptDyn(ex) => !ex.iter().any(|(p, name)| *p == point && *name == prop),
+            _ => self.acts(point, Hint::DynamicProp),
         }
     }
     fn scalar_props(&self, ty: &str) -> Vec<String> {
@@ -81,12 +96,9 @@ impl Pruner {
     /// Does vertex `v` (statically typed `ty`) survive the static / coercion / mandatory-edge hints of `info`?
     fn survives_static(&self, point: usize, v: usize, ty: &str, info: &impl VertexInfo, depth: usize) -> bool {
         let ty = info.coerced_to_type().map(|t| t.to_string()).unwrap_or_else(|| ty.to_string());
-        if let Some(t) = info.coerced_to_type() {
-            self.active.borrow_mut().insert((point, Hint::CoercedType));
-            if self.acts(point, Hint::CoercedType) && !self.world.instance_of(&self.ds, v, t) {
-                return false;
-            }
-        }
+        // `coerced_to_type()` is deliberately not acted upon: the property speaks of candidate
+        // values and mandatory edges only, and the hint carries no "binding" information (under
+        // @optional / @recurse a coercion does not license discarding the neighbour).
         for p in self.scalar_props(&ty) {
             if let Some(c) = info.statically_required_property(&p) {
                 self.active.borrow_mut().insert((point, Hint::StaticProp));
@@ -121,11 +133,6 @@ impl Pruner {
     }
 
     fn survives_nested(&self, point: usize, v: usize, ty: &str, info: &impl VertexInfo) -> bool {
-        if let Some(t) = info.coerced_to_type() {
-            if !self.world.instance_of(&self.ds, v, t) {
-                return false;
-            }
-        }
         let ty = info.coerced_to_type().map(|t| t.to_string()).unwrap_or_else(|| ty.to_string());
         for p in self.scalar_props(&ty) {
             if let Some(c) = info.statically_required_property(&p) {
@@ -175,7 +182,8 @@ impl Adapter<'static> for Pruner {
         for p in self.scalar_props(&dest_ty) {
             if let Some(drv) = dest.dynamically_required_property(&p) {
                 self.active.borrow_mut().insert((point, Hint::DynamicProp));
-                if !self.acts(point, Hint::DynamicProp) {
+                self.active_dyn.borrow_mut().insert((point, p.clone(), info.destination_vid()));
+                if !self.acts_dyn(point, &p) {
                     continue;
                 }
                 let resolved: Vec<_> = drv.resolve(&self.inner, Box::new(ctxs.into_iter())).collect();
@@ -247,24 +255,90 @@ pub fn check_case(ctx: &Ctx, uni: &Universe, case: &Case<'_>, c: &Counters, samp
         }
         return;
     }
-    // localise: exactly one hint kind at one resolution point
-    let mut culprit = None;
-    for (p, h) in &active {
-        let pr = Arc::new(Pruner::new(uni.world.clone(), case.ds.clone(), Mode::Only(*p, *h)));
+    // localise: exactly one hint kind at one resolution point; dynamic hints per property
+    let agrees = |mode: Mode| {
+        let pr = Arc::new(Pruner::new(uni.world.clone(), case.ds.clone(), mode));
         let o = engine::execute(pr, case.cq.iq.clone(), case.args);
         c.runs.fetch_add(1, Ordering::Relaxed);
-        if !matches!(&o, Exec::Rows(r) if engine::canon_rows_multiset(r) == base_ms) {
-            culprit = Some((*p, *h));
-            break;
+        matches!(&o, Exec::Rows(r) if engine::canon_rows_multiset(r) == base_ms)
+    };
+    let mut culprits: Vec<String> = vec![];
+    let mut dyn_culprits: Vec<(usize, &'static str, Vid)> = vec![];
+    for (p, h) in &active {
+        if *h == Hint::DynamicProp {
+            continue;
+        }
+        if !agrees(Mode::Only(*p, *h)) {
+            culprits.push(format!("resolution point {p}, {h:?}"));
+        }
+    }
+    for (p, prop, vid) in all.active_dyn.borrow().iter() {
+        let name: &'static str = intern(prop);
+        if !agrees(Mode::OnlyDyn(*p, name)) {
+            dyn_culprits.push((*p, name, *vid));
+            culprits.push(format!("resolution point {p}, DynamicProp({prop}) selected filter `{}`", selected_dynamic_filter(&case.cq.iq, *vid, prop)));
         }
     }
     let mut rep = case.replay();
     rep["wrapper"] = json!("Pruner(all hints)");
-    rep["culprit_hint"] = json!(culprit.map(|(p, h)| format!("resolution point {p}, {h:?}")));
+    rep["culprit_hints"] = json!(culprits);
     rep["expected"] = json!({"rows": engine::rows_json(&base)});
     rep["observed"] = engine::exec_json(&out_all);
-    let key = format!("{}{}", failure_key(case, &out_all), culprit.map(|(_, h)| format!(" [{h:?}]")).unwrap_or_default());
+    // Known finding (known_findings.json, key below): the candidate for a `>=` filter on a tag is
+    // upper-bounded. A case is attributed to it only if (1) every culprit is a dynamic hint whose
+    // selected filter (documented priority: =, one_of, first ordering filter, !=) is `>=`, and
+    // (2) with exactly those hints ignored and all others acted upon, results agree again.
+    let only_gte = culprits.len() == dyn_culprits.len() && !dyn_culprits.is_empty() && dyn_culprits.iter().all(|(_, prop, vid)| selected_dynamic_filter(&case.cq.iq, *vid, prop) == ">=");
+    if only_gte {
+        let ex: &'static [(usize, &'static str)] = Box::leak(dyn_culprits.iter().map(|(p, n, _)| (*p, *n)).collect::<Vec<_>>().into_boxed_slice());
+        if agrees(Mode::AllExceptDyn(ex)) {
+            ctx.fail(GTE_KEY, "dynamic hint for a `>=` filter on a tag is an upper-bounded range", rep);
+            return;
+        }
+    }
+    let key = format!("{}{}", failure_key(case, &out_all), if culprits.is_empty() { " [combination]".to_string() } else if dyn_culprits.is_empty() { " [static]".into() } else { " [DynamicProp]".into() });
     ctx.fail(&key, "acting on the engine's hints changed the results (or hint computation panicked)", rep);
+}
+
+pub const GTE_KEY: &str = "dynamic-hint:>=-on-tag-yields-upper-bounded-range";
+
+fn intern(s: &str) -> &'static str {
+    static TABLE: Mutex<BTreeSet<&'static str>> = Mutex::new(BTreeSet::new());
+    let mut t = TABLE.lock().unwrap();
+    if let Some(x) = t.get(s) {
+        return x;
+    }
+    let l: &'static str = Box::leak(s.to_string().into_boxed_str());
+    t.insert(l);
+    l
+}
+
+/// Which filter `dynamically_required_property(prop)` materialises at vertex `vid`, by the
+/// priority documented in hints/vertex_info.rs: `=`, then `one_of`, then the first ordering
+/// filter, then the first supported one; only filters whose right operand is a tag count.
+pub fn selected_dynamic_filter(iq: &IndexedQuery, vid: Vid, prop: &str) -> &'static str {
+    let Some(comp) = iq.vids.get(&vid) else { return "?" };
+    let Some(v) = comp.vertices.get(&vid) else { return "?" };
+    use trustfall_core::ir::LocalField;
+    fn name(op: &Operation<LocalField, Argument>) -> Option<(&'static str, &LocalField, &Argument)> {
+        Some(match op {
+            Operation::Equals(l, r) => ("=", l, r),
+            Operation::NotEquals(l, r) => ("!=", l, r),
+            Operation::LessThan(l, r) => ("<", l, r),
+            Operation::LessThanOrEqual(l, r) => ("<=", l, r),
+            Operation::GreaterThan(l, r) => (">", l, r),
+            Operation::GreaterThanOrEqual(l, r) => (">=", l, r),
+            Operation::OneOf(l, r) => ("one_of", l, r),
+            _ => return None,
+        })
+    }
+    let rel: Vec<&'static str> = v.filters.iter().filter_map(name).filter(|(_, l, r)| l.field_name.as_ref() == prop && matches!(r, Argument::Tag(_))).map(|(n, _, _)| n).collect();
+    for want in [&["="][..], &["one_of"][..], &["<", "<=", ">", ">="][..]] {
+        if let Some(x) = rel.iter().find(|o| want.contains(o)) {
+            return x;
+        }
+    }
+    rel.first().copied().unwrap_or("?")
 }
 
 #[derive(Default)]
